@@ -465,8 +465,19 @@ def _run_case(s, chunks, rows, probe, events, between_reads, sync_keys):
             elif ev[0] == "print_with_keys":
                 # keys typed ahead and a message handed over at the same moment (the child's key handling is slow: `key_delay_ms`),
                 # so that the terminal and the printer's wake-up are ready for one and the same wait
-                os.write(s.master, ev[3])
-                s.sent += len(ev[3])
+                # -- the first key alone; once the child says it is handling it (`H`), the other keys and the message
+                nh = sum(1 for l in s.obs if l == "H")
+                os.write(s.master, ev[3][:1])
+                s.sent += 1
+                t0 = time.time()
+                while len(ev[3]) > 1 and time.time() - t0 < 2.0:
+                    s._drain()
+                    if sum(1 for l in s.obs if l == "H") > nh or s._exited():
+                        break
+                    time.sleep(0.0003)
+                if len(ev[3]) > 1:
+                    os.write(s.master, ev[3][1:])
+                    s.sent += len(ev[3]) - 1
                 statuses.append(s.tell_printer(ev[1], ev[2], wait=False))
             elif ev[0] == "winch_blocked":
                 # a resize while NOTHING is read from the terminal: the child is (or soon will be) blocked writing a message
